@@ -5,7 +5,7 @@ observed output, and answers one line per record:
   `ok <flags…>` | `DISAGREE <kind> model=<…> impl=<…>` | `ORACLE-FAIL <property> <detail>` |
   `KNOWN <property> <signature> …` | `BADREC <kind>`.
 -/
-import Driver.E2E
+import Driver.PG
 open Pm Drv
 
 def handle (line : String) : String :=
@@ -25,10 +25,18 @@ def handle (line : String) : String :=
       | "TRH" => some handleTRH
       | "TRT" => some handleTRT
       | "TP" => some handleTP
+      | "PGL" => some handlePGL
+      | "PGC" => some handlePGC
+      | "PGW" => some handlePGW
+      | "PGO" => some handlePGO
+      | "PGR" => some handlePGR
+      | "TRG" => some handleTRG
+      | "PGD" => some handlePGD
       | "E2E" => (match ts.head? with
           | some "S" => some (fun ts => handleE2E strE2E (ts.drop 1))
           | some "M" => some (fun ts => handleE2E matE2E (ts.drop 1))
           | some "T" => some (fun ts => handleE2ETable (ts.drop 1))
+          | some "G" => some (fun ts => handleE2E pgE2E (ts.drop 1))
           | _ => none)
       | _ => none
     match p with
